@@ -16,6 +16,9 @@ from ..convtables import (UNK, Fold, Groups, candidate_atoms, exporter_model,
 from ..core import AnalysisError, Program, call_name, norm
 from ..report import Result
 
+DESCRIPTOR_NAMES = ("Tetrahedral", "SquarePlanar", "TrigonalBipyramidal",
+                    "Octahedral", "PlanarBond", "AtropBond")
+
 LEVEL_TEXT = (
     "static, exhaustive at table level: for the tetrahedral (with and "
     "without lone pair), square-planar, trigonal-bipyramidal and octahedral "
@@ -180,10 +183,26 @@ def run(prog: Program, res: Result, tier: str) -> None:
     tm = exp["Tetrahedral"]
     br = tm["branch"]
     sel = None
+
+    def _is_desc_cmp(t):
+        return isinstance(t, ast.Compare) and "a_stereo" in norm(t) and any(
+            isinstance(x, ast.Call) and call_name(x) in DESCRIPTOR_NAMES
+            for x in ast.walk(t))
+
     for node in ast.walk(br):
-        if isinstance(node, ast.If) and isinstance(node.test, ast.Compare) \
-                and "a_stereo" in norm(node.test) and node.orelse:
+        if isinstance(node, ast.If) and _is_desc_cmp(node.test) and \
+                node.orelse:
             sel = node
+        elif isinstance(node, ast.Assign) and isinstance(
+                node.value, ast.IfExp) and _is_desc_cmp(node.value.test):
+            # canonical form of `if c: x = A else: x = B`
+            v = node.value
+            sel = ast.If(
+                test=v.test,
+                body=[ast.Assign(targets=node.targets, value=v.body)],
+                orelse=[ast.Assign(targets=node.targets, value=v.orelse)])
+            ast.copy_location(sel, node)
+            ast.fix_missing_locations(sel)
     etags = exp["tetrahedral_tags"]
     itags = imp["tetrahedral_tags"]
     inst = "Tetrahedral tag tables are mutually inverse"
